@@ -8,7 +8,7 @@ let status_of_int = function 0 -> Optimal | 1 -> Infeasible | 2 -> TimeLimit | _
 let next_raw () = let s = next () in let c = next_bool () in { native = status_of_int s; custom_timeout = c }
 let next_optq () = let f = next_bool () in let x = next_q () in if f then Some x else None
 let print_outcome o =
-  let r = match o.res with
+  let r = match o.so_res with
     | Solved k -> Printf.sprintf "S %d" (int_of_nat k) | NotSolved -> "N" | Exited -> "X" | Crashed -> "C" | Starved -> "V" in
   Printf.printf "RES %s %d %d %d\n" r (int_of_nat o.used) (int_of_nat o.aux) (int_of_nat o.lbk)
 
